@@ -16,6 +16,24 @@ def rejFrom (f : Vec.Pred1) : Nat → List Elem → List Elem
   | _, [] => []
   | k, e :: es => if f k e then rejFrom f (k + 1) es else e :: rejFrom f (k + 1) es
 
+theorem keptFrom_sublist (f : Vec.Pred1) (k : Nat) (es : List Elem) : (keptFrom f k es).Sublist es := by
+  induction es generalizing k with
+  | nil => simp [keptFrom]
+  | cons e es ih =>
+    simp only [keptFrom]
+    split
+    · exact (ih (k + 1)).cons₂ e
+    · exact (ih (k + 1)).cons e
+
+theorem kept_rej_perm (f : Vec.Pred1) (k : Nat) (es : List Elem) : (keptFrom f k es ++ rejFrom f k es).Perm es := by
+  induction es generalizing k with
+  | nil => simp [keptFrom, rejFrom]
+  | cons e es ih =>
+    simp only [keptFrom, rejFrom]
+    split
+    · simpa using (ih (k + 1)).cons e
+    · exact (List.perm_middle).trans ((ih (k + 1)).cons e)
+
 theorem sw_blk (s : St) (b : Blk) (hb : s.v.blk = some b) (i j : Nat) (hi : i < b.slots.length) (hj : j < b.slots.length) :
     VM.sw (.at (dataOff b.lay.align)) i j s =
       (.ok (), { s with v := { s.v with blk := some { b with slots := (b.slots.set i b.slots[j]).set j b.slots[i] } } }) := by
